@@ -14,6 +14,8 @@ VALUE_W = {"print": 3, "print16": 5, "print32": 9}
 ROW_RE = re.compile(r"^0x([0-9a-f]{4,8}):")
 WROTE_RE = re.compile(r"^Wrote (-?\d+) (?:bytes|int16's|int32's) starting at address 0x([0-9a-f]+)$")
 REG_RE = re.compile(r"(PC|SP|SR|CG|r\d+): 0x([0-9a-f]{4})")
+STEP_RE = re.compile(r"^ ! 0x([0-9a-f]{4}): 0x([0-9a-f]{4})")
+DIS_RE = re.compile(r"^0x([0-9a-f]{4}): 0x([0-9a-f]{4})")
 
 
 def row_values(cmd, rest):
@@ -109,6 +111,12 @@ def parse_command_output(cmdword, text):
         elif cmdword in ("registers", "reg"):
             for name, val in REG_RE.findall(ln):
                 regs[name] = int(val, 16)
+        elif cmdword == "step" and STEP_RE.match(ln):
+            m = STEP_RE.match(ln)
+            ev.append("f%x:%x" % (int(m.group(1), 16), int(m.group(2), 16)))
+        elif cmdword == "disasm" and DIS_RE.match(ln):
+            m = DIS_RE.match(ln)
+            ev.append("i%x:%x" % (int(m.group(1), 16), int(m.group(2), 16)))
     if cmdword in ("registers", "reg") and regs:
         order = ["PC", "SP", "SR", "CG"] + ["r%d" % n for n in range(4, 16)]
         if all(k in regs for k in order):
@@ -236,3 +244,101 @@ class RefImage:
         n = width // 8
         bs = bytes(self.cells.get((byte_addr + i) % 2**32, 0) for i in range(n))
         return int.from_bytes(bs, "big" if self.big else "little")
+
+
+# ---------------------------------------------------------------------------
+# structured sessions for the oracle: every op carries its meaning AND its spelling, so the reference below never
+# parses the text it judges
+# ---------------------------------------------------------------------------
+
+NB = {8: 1, 16: 2, 32: 4}
+WNAME = {8: "", 16: "16", 32: "32"}
+
+
+class RefSession:
+    """What the property says a session of well-formed ops shows (written from the statement).
+    Image = byte-addressed partial map; addresses typed by the user are in address units."""
+
+    def __init__(self, cpu, syms):
+        self.cpu, self.bpa = cpu, cpu["bpa"]
+        self.img = RefImage(cpu["big"], cpu["bpa"])
+        self.syms = dict(syms)
+        self.written = set()
+
+    def high(self):
+        return max(self.written) if self.written else 0
+
+    def low(self):
+        return min(self.written) if self.written else 0xffffffff
+
+    def listing(self, width, start, count):
+        n = NB[width]
+        per_row = 16 // n
+        ev = []
+        for i in range(count):
+            a = start + i * n
+            if i % per_row == 0:
+                ev.append("r%x" % (a // self.bpa))
+            ev.append("v%x" % self.img.read(width, a))
+        return ev
+
+    def do_write(self, width, addr_units, values):
+        start = addr_units * self.bpa
+        self.img.write(width, addr_units, values)
+        for i in range(NB[width] * len(values)):
+            self.written.add(start + i)
+        return ["w%d@%x" % (len(values), addr_units)]
+
+    def print_span(self, width, a_units, b_units):
+        """(start byte, number of values) of `print a`, `print a-` (b_units == 'open'), `print a-b`"""
+        n = NB[width]
+        start = a_units * self.bpa
+        if b_units is None:
+            nbytes = 128
+        else:
+            endb = self.high() if b_units == "open" else b_units * self.bpa
+            if endb <= start:
+                nbytes = 128                      # a reversed range lists the default length
+            else:
+                last = (endb // self.bpa) * self.bpa + self.bpa - 1      # last byte of the end address
+                nbytes = last - start + 1
+        return start, (nbytes + n - 1) // n
+
+
+def spell_addr(rng, units, syms_by_value):
+    if units in syms_by_value and rng.random() < 0.5:
+        return rng.choice(syms_by_value[units])
+    return spell(rng, units)
+
+
+def blanks(rng):
+    return " " * rng.choice([1, 1, 1, 1, 2, 3])
+
+
+def op_text(rng, op, syms_by_value):
+    """spelling of a structured op"""
+    k = op[0]
+    if k == "write":
+        _, width, a, vals = op
+        vs = []
+        for v in vals:
+            if v >= 2**31 and rng.random() < 0.3:
+                vs.append("-%d" % (2**32 - v))
+            else:
+                vs.append(spell(rng, v))
+        return "write%s%s%s%s" % (WNAME[width], blanks(rng), spell_addr(rng, a, syms_by_value),
+                                   "".join(blanks(rng) + v for v in vs))
+    if k in ("print", "disasm"):
+        _, width, a, b = op
+        name = "disasm" if k == "disasm" else "print" + WNAME[width]
+        t = spell_addr(rng, a, syms_by_value)
+        sep = rng.choice(["-", "-", "-", " - ", " -", "- "])
+        if b == "open":
+            t += sep.rstrip() if rng.random() < 0.7 else sep
+            t = t.rstrip() if t.endswith(" ") else t
+        elif b is not None:
+            t += sep + spell_addr(rng, b, syms_by_value)
+        return name + blanks(rng) + t
+    if k == "raw":
+        return op[1]
+    raise ValueError(k)
